@@ -2,6 +2,8 @@ import StepModel.Props.C14
 import StepModel.SkipEntry
 import StepModel.Generated.P21RWGen
 import StepModel.HeaderIdsLemmas
+import StepModel.WsBytesLemmas
+import StepModel.Props.C01
 /-!
 C16 — working-session files round-trip populations with per-instance state.
 
@@ -632,6 +634,168 @@ theorem C16_header_order_witness :
   decide
 
 end header
+
+/-! ### the round trip over the TEXT of the file (byte level)
+
+`StepModel/WsBytes.lean` puts the working-session state letters on top of the byte-level reader of C01/C03 (their
+`createInstance` / `readInstance` / `skipInstance`, not edited); `wsWriteInsts` is `WriteWorkingData` for the instances that
+are not marked deleted: the state letter, then the bytes `WriteData` prints for the instance (their `writeInst`).  This is
+the statement the entry-level `C16_roundtrip` delegates to "the same `STEPwrite` as in an exchange file". -/
+section text
+open StepModel.P21 StepModel.P21.C01 StepModel.P21.RLemmas StepModel.P21.Lemmas StepModel.P21.Grammar StepModel.WsBytes
+
+theorem letterFor_state {st : NState} {L : Letter} (h : letterFor st = some L) : L.state = st ∧ L ≠ .D := by
+  cases st <;> simp [letterFor] at h <;> subst h <;> exact ⟨rfl, by decide⟩
+
+/-- **write a session, read the TEXT, get the session** (`_partial`: instances of the fragment `C01_file_write_read_partial`
+    covers — internally mapped, `StorableInst`: the value kinds of `Storable` —, states complete / incomplete / new; entries
+    marked deleted and comments are not in this statement: a `D` entry is skipped exactly (`C16_deleted_entry_skipped`)).
+    For every dictionary, every reader configuration with the comment repairs (they are in the source: `C01_source_*`), either
+    strictness, every manager whose instances have pairwise different ids and refer only to instances it holds: the bytes
+    `WriteWorkingData` emits — for each instance its state letter and the record `STEPwrite` prints —, followed by `ENDSEC;`,
+    are read by the two passes of a working-session read to exactly the instances that were written: same ids, types, every
+    value identical, every editing STATE the one that was saved; nothing is reported, every instance counts as valid; and
+    writing what was read gives the same bytes again. -/
+theorem C16_text_roundtrip_partial {F} (ops : FloatOps F) (lex : LexCfg) (cfg : RWCfg) (d : Dict) (strict : Bool)
+    (hskip : cfg.skipInstanceSkipsComments = true) (hcri : lex.criSkipsComments = true) (hagg : cfg.aggrSkipsComments = true)
+    (hsa : cfg.stringNodeAppends = false) (m : Mgr F) (hnd : (m.insts.map (·.id)).Nodup)
+    (hst : ∀ i ∈ m.insts, StorableInst { ops := ops, lex := lex, cfg := cfg, dict := d, lookup := Mgr.lookup d m } i)
+    (hstate : ∀ i ∈ m.insts, i.state ≠ .noState) (tail : List Byte) :
+    ∃ p1 p2, wsReadData ops lex cfg d strict
+        (10 :: (wsWriteInsts ops cfg d m ++ (stringToBytes "ENDSEC;\n" ++ tail))) = .ok (p1, p2) ∧
+      p2.mgr.insts = m.insts ∧ p1.count = m.insts.length ∧ p1.notCreated = 0 ∧ p2.fileErr = .null ∧
+      p2.valid = m.insts.length ∧ p2.invalid = 0 ∧ p2.incomplete = 0 ∧
+      wsWriteInsts ops cfg d p2.mgr = wsWriteInsts ops cfg d m := by
+  let env : Env F := { ops := ops, lex := lex, cfg := cfg, dict := d, lookup := Mgr.lookup d m }
+  -- the letter of every instance
+  have hlet : ∀ i ∈ m.insts, ∃ L, letterFor i.state = some L := by
+    intro i hi
+    cases hs : i.state <;> simp [letterFor] <;> exact absurd hs (hstate i hi)
+  let letOf : MInst F → Letter := fun i => (letterFor i.state).getD .C
+  have hletOf : ∀ i ∈ m.insts, letterFor i.state = some (letOf i) := by
+    intro i hi; obtain ⟨L, hL⟩ := hlet i hi; simp [letOf, hL]
+  let rs : List (Letter × Rec F × List Byte) := m.insts.map (fun i => (letOf i, recOf ops cfg d i))
+  have hspec : ∀ i, i ∈ m.insts →
+      (recOf ops cfg d i).1.Lex ∧ Seps (recOf ops cfg d i).2 ∧ (recOf ops cfg d i).1.id = i.id ∧
+      (∃ p e, i.parts = [p] ∧ (recOf ops cfg d i).1.name = p.name ∧ d.entity? p.name = some e ∧ e.abstract = false ∧
+        e.attrs = (recOf ops cfg d i).1.ps.map (·.a) ∧ (recOf ops cfg d i).1.ps.map (·.v) = p.vals ∧
+        ∀ q ∈ (recOf ops cfg d i).1.ps, Covered env q) ∧
+      ∀ K, 35 :: (recOf ops cfg d i).1.text ((recOf ops cfg d i).2 ++ K) = writeInst ops cfg d i ++ K :=
+    fun i hi => recOf_spec env cfg hsa i (hst i hi)
+  have hkeys : (rs.map (wsMkInst d)).map keyOf = m.insts.map keyOf := by
+    simp only [rs, List.map_map]
+    apply List.map_congr_left
+    intro i hi
+    obtain ⟨_, _, hid, ⟨p, e, hparts, hname, _⟩, _⟩ := hspec i hi
+    simp [keyOf, wsMkInst, mkInst, hid, hname, hparts]
+  have hlk : Mgr.lookup d ({ insts := rs.map (wsMkInst d) } : Mgr F) = Mgr.lookup d m := lookup_congr d _ m hkeys
+  have hids : rs.map (·.2.1.id) = m.insts.map (·.id) := by
+    simp only [rs, List.map_map]
+    apply List.map_congr_left
+    intro i hi
+    exact (hspec i hi).2.2.1
+  -- the text
+  have hw : ∀ (is : List (MInst F)), (∀ i ∈ is, i ∈ m.insts) → ∀ fin,
+      wsRender (is.map (fun i => (letOf i, recOf ops cfg d i))) fin = wsWriteInsts ops cfg d { insts := is } ++ fin := by
+    intro is
+    induction is with
+    | nil => intro _ fin; rfl
+    | cons i t ih =>
+      intro hmem fin
+      have hi := hmem i (by simp)
+      obtain ⟨_, _, _, _, hwi⟩ := hspec i hi
+      have := hwi (wsRender (t.map (fun i => (letOf i, recOf ops cfg d i))) fin)
+      have ht := ih (fun x hx => hmem x (by simp [hx])) fin
+      simp only [wsWriteInsts] at ht ⊢
+      simp only [List.map_cons, List.flatMap_cons, wsRender, hletOf i hi, List.cons_append, List.append_assoc]
+      rw [this, ht]
+  have hfile : (10 : Byte) :: (wsWriteInsts ops cfg d m ++ (stringToBytes "ENDSEC;\n" ++ tail)) =
+      [10] ++ wsRender rs (endsec [] ([10] ++ tail)) := by
+    have e1 : stringToBytes "ENDSEC;\n" = [69, 78, 68, 83, 69, 67, 59, 10] := by decide
+    show _ = [10] ++ wsRender (m.insts.map (fun i => (letOf i, recOf ops cfg d i))) _
+    rw [hw m.insts (fun _ h => h), e1]
+    simp [endsec]
+  obtain ⟨p1, p2, hr, hinsts, hc, hnc, herr, hv, hinv, hinc, _, _⟩ :=
+    wsReadData_recs ops lex cfg hskip d strict [] ([10] ++ tail) (by simp) rs [10] (Seps.blanks _ (by decide))
+      (by
+        intro x hx
+        obtain ⟨i, hi, rfl⟩ := List.mem_map.mp hx
+        obtain ⟨hlex, hg, _, ⟨p, e, _, hname, hent, habs, _, _, hcov⟩, _⟩ := hspec i hi
+        exact ⟨(letterFor_state (hletOf i hi)).2, hlex, hg, fun q hq => covered_scan _ q (hcov q hq), e, by rw [hname]; exact hent, habs⟩)
+      (by rw [hids]; exact hnd)
+      (by
+        intro x hx
+        obtain ⟨i, hi, rfl⟩ := List.mem_map.mp hx
+        obtain ⟨hlex, hg, _, ⟨p, e, _, hname, hent, habs, hattrs, _, hcov⟩, _⟩ := hspec i hi
+        rw [hlk]
+        exact ⟨hlex, hg, e, by rw [hname]; exact hent, hattrs, fun q hq => covered_ok env strict hcri hagg q (hcov q hq)⟩)
+  have hres : p2.mgr.insts = m.insts := by
+    rw [hinsts]
+    simp only [rs, List.map_map]
+    conv => rhs; rw [← List.map_id m.insts]
+    apply List.map_congr_left
+    intro i hi
+    obtain ⟨_, _, hid, ⟨p, e, hparts, hname, _, _, _, hvals, _⟩, _⟩ := hspec i hi
+    obtain ⟨_, _, hcx, _⟩ := hst i hi
+    have hLs := (letterFor_state (hletOf i hi)).1
+    cases i with
+    | mk id parts complex state =>
+      simp only at hid hparts hcx hname hvals hLs
+      subst hparts; subst hcx
+      simp [wsFinInst, finInst, hid, hname, hvals, hLs]
+  refine ⟨p1, p2, by rw [hfile]; exact hr, hres, ?_, hnc, herr, ?_, hinv, hinc, ?_⟩
+  · rw [hc]; simp [rs]
+  · rw [hv]; simp [rs]
+  · simp only [wsWriteInsts, hres]
+
+/-- the tables of the byte-level layer are the regenerated ones: the prefix letters `strchr( "CIND", c )` accepts, the state
+    `EntityWfState` gives each (what pass 1 appends the instance with), the letter `WriteWorkingData` prints for each state;
+    a working-session read never changes a state; skipped `D` entries are not counted -/
+theorem C16_text_layer_ties :
+    wfLetters.map (fun c => letterOf c.toNat) = [some .C, some .I, some .N, some .D] ∧
+    (∀ c : Byte, (letterOf c).isSome = true → (Char.ofNat c) ∈ wfLetters) ∧
+    (entityWfState 'C' = .complete ∧ Letter.C.state = .complete) ∧ (entityWfState 'I' = .incomplete ∧ Letter.I.state = .incomplete) ∧
+    (entityWfState 'N' = .new ∧ Letter.N.state = .new) ∧ entityWfState 'D' = .delete ∧
+    (writeLetterOf .complete = some 'C' ∧ letterFor .complete = some .C) ∧
+    (writeLetterOf .incomplete = some 'I' ∧ letterFor .incomplete = some .I) ∧
+    (writeLetterOf .new = some 'N' ∧ letterFor .new = some .N) ∧ (writeLetterOf .noState = none ∧ letterFor .noState = none) ∧
+    workingReadKeepsState = true ∧ deletedCountsAsFailure = false := by
+  refine ⟨by decide, ?_, by decide, by decide, by decide, by decide, by decide, by decide, by decide, by decide, rfl, rfl⟩
+  intro c hc
+  simp only [letterOf] at hc
+  by_cases h1 : c = 67
+  · subst h1; decide
+  · by_cases h2 : c = 73
+    · subst h2; decide
+    · by_cases h3 : c = 78
+      · subst h3; decide
+      · by_cases h4 : c = 68
+        · subst h4; decide
+        · simp [h1, h2, h3, h4] at hc
+
+/-- the hypotheses of `C16_text_roundtrip_partial` are satisfiable: C01's witness file `#2=B(#1,$);` `#1=A(5);` (a forward
+    reference) as a session with the states incomplete and new — saved as `I#2=B(#1,$);⏎N#1=A(5);⏎` -/
+example :
+    let m : Mgr Nat := { insts := [{ finInst wRecB with state := .incomplete }, { finInst wRecA with state := .new }] }
+    (m.insts.map (·.id)).Nodup ∧ (∀ i ∈ m.insts, StorableInst (wEnv m) i) ∧ (∀ i ∈ m.insts, i.state ≠ .noState) ∧
+    wsWriteInsts dblOps Generated.rwCfg wDict m =
+      stringToBytes "I#2=B(#1,$);\nN#1=A(5);\n" := by
+  intro m
+  obtain ⟨_, _, hst⟩ := C01_file_hypotheses_witness
+  have hlk : Mgr.lookup wDict m = Mgr.lookup wDict ({ insts := wRecs.map finInst } : Mgr Nat) := by
+    apply lookup_congr; decide
+  refine ⟨by decide, ?_, by decide, by decide⟩
+  intro i hi
+  simp only [m, List.mem_cons, List.mem_singleton, List.not_mem_nil, or_false] at hi
+  unfold wEnv
+  rw [hlk]
+  rcases hi with rfl | rfl
+  · obtain ⟨h0, h1, h2, p, e, hp, he, ha, hk, hr⟩ := hst wRecB (by simp [wRecs])
+    exact ⟨h0, h1, h2, p, e, hp, he, ha, hk, hr⟩
+  · obtain ⟨h0, h1, h2, p, e, hp, he, ha, hk, hr⟩ := hst wRecA (by simp [wRecs])
+    exact ⟨h0, h1, h2, p, e, hp, he, ha, hk, hr⟩
+
+end text
 
 /-! ### hypotheses are satisfiable, with all four states and a missing value present -/
 
